@@ -178,6 +178,24 @@ def gen_cases(ctx):
         else:
             add('policy-mut', src, mutate(rng, mutate(rng, src, ['lf']), ['lf']))
 
+    # large edit distances (hundreds to thousands of line edits, different line counts): predicate on the
+    # implementation only (really applying the edits); too big for the in-Coq comparison, so kind 'large'
+    # is excluded from the correspondence
+    shapes = [(1200, 500, 0), (700, 1300, 100), (1500, 0, 0)] if quick else \
+        [(1200, 500, 0), (700, 1300, 100), (1500, 0, 0), (0, 1100, 0), (2500, 2400, 50), (1100, 1100, 0), (3000, 10, 5), (600, 600, 300)]
+    for (m, n, common) in shapes:
+        shared = [b'shared line %d' % i for i in range(common)]
+        xs = [b'  old body %d' % rng.below(10 ** 6) for _ in range(m)]
+        ys = [b'new body %d' % rng.below(10 ** 6) for _ in range(n)]
+        for k, l in enumerate(shared):
+            if xs:
+                xs.insert(min(len(xs), (k * 7) % (len(xs) + 1)), l)
+            if ys:
+                ys.insert(min(len(ys), (k * 5) % (len(ys) + 1)), l)
+        final_x = b'\n' if rng.below(2) else b''
+        final_y = b'\n' if rng.below(2) else b''
+        add('large', b'\n'.join(xs) + (final_x if xs else b''), b'\n'.join(ys) + (final_y if ys else b''))
+
     # malformed stream: arbitrary bytes (invalid UTF-8, NUL, only terminators)
     n_mal = 300 if quick else 3000
     for i in range(n_mal):
@@ -325,10 +343,34 @@ def coq_shards(ctx, items, tag='main', nshards=NSHARDS):
 
 # ------------------------------------------------------------------ minimisation
 
-def minimise(ctx, before, after, is_bad):
-    """greedy line-wise shrinking; is_bad(list of (before, after)) -> list of bool (one batch run)"""
+def minimise(ctx, before, after, is_bad, budget_s=60):
+    """greedy line-wise shrinking; is_bad(list of (before, after)) -> list of bool (one batch run).
+    Large documents are first shrunk by removing chunks of lines (halving the chunk size), under a time budget."""
+    t_end = time.time() + budget_s
+    cur = (before, after)
+    for side in (0, 1):
+        chunk = max(1, len(split_keep(cur[side])) // 2)
+        while chunk >= 8 and time.time() < t_end:
+            ls = split_keep(cur[side])
+            cands = []
+            for i in range(0, len(ls), chunk):
+                rest = b''.join(ls[:i] + ls[i + chunk:])
+                cands.append((rest, cur[1]) if side == 0 else (cur[0], rest))
+            cands = [c for c in cands if c != cur][:24]
+            if not cands:
+                break
+            bad = is_bad(cands)
+            better = [c for c, x in zip(cands, bad) if x]
+            if better:
+                cur = min(better, key=lambda c: (len(c[0]) + len(c[1]), c))
+            else:
+                chunk //= 2
+    if len(split_keep(cur[0])) + len(split_keep(cur[1])) > 400 or time.time() >= t_end:
+        return cur
     cur = (before, after)
     for rnd in range(40):
+        if time.time() >= t_end:
+            break
         lb, la = split_keep(cur[0]), split_keep(cur[1])
         cands = []
         for i in range(len(lb)):
@@ -395,7 +437,7 @@ def run(ctx):
     pred_bad = [(c, why) for c, why in pred_bad if why]
 
     # ---- correspondence + specification inside Coq (cases where the implementation panicked have no edit list)
-    coq_cases = [c for c in live if not res[c['id']].get('panic')]
+    coq_cases = [c for c in live if not res[c['id']].get('panic') and c['kind'] != 'large']
     items = [(bytes.fromhex(c['before']), bytes.fromhex(c['after']), res[c['id']]['edits']) for c in coq_cases]
     t_coq = time.time()
     r1, r2, r3, rounds = coq_shards(ctx, items)
